@@ -162,6 +162,20 @@ theorem step_me (cfg : Cfg) (nd : Node) (op : Op) : (step cfg nd op).1.me = nd.m
         · exact ⟨rfl, rfl⟩
         · split <;> exact ⟨rfl, rfl⟩
   | setTimeout => exact ⟨rfl, rfl⟩
+  | secretCommits cs =>
+    simp only [step, secretCommits]; split <;> exact ⟨rfl, rfl⟩
+  | procSecretCommits idx sid s cs =>
+    simp only [step, processSecretCommits]
+    repeat' split
+    all_goals exact ⟨rfl, rfl⟩
+  | procComplaintCommits issuer didx s d =>
+    simp only [step, processComplaintCommits]
+    repeat' split
+    all_goals exact ⟨rfl, rfl⟩
+  | procReconstruct sid index didx hs si sv s =>
+    simp only [step, processReconstruct]
+    repeat' split
+    all_goals exact ⟨rfl, rfl⟩
 
 /-- What one call does to the verifier map, entry by entry: an existing verifier continues its VSS history
     (zero, one or two VSS operations); a new entry appears only through `ProcessDeal` of an index in range that
@@ -313,5 +327,38 @@ theorem step_rel (cfg : Cfg) (nd : Node) (op : Op) : StepRel cfg nd (step cfg nd
     · intro j v' hn hs
       rw [hv, lookup_map_snd nd.verifiers (fun x => (Vss.step cfg x .setTimeout).1) j, hn] at hs; cases hs
     · intro hk; rw [hv, keys_map_snd nd.verifiers (fun x => (Vss.step cfg x .setTimeout).1)]; exact hk
+  | secretCommits cs =>
+    simp only [step, secretCommits]
+    split
+    · exact StepRel.refl _ _
+    · exact StepRel.of_verifiers_eq cfg nd _ rfl
+  | procSecretCommits idx sid s cs =>
+    simp only [step, processSecretCommits]
+    repeat' split
+    all_goals first | exact StepRel.refl _ _ | exact StepRel.of_verifiers_eq cfg nd _ rfl
+  | procComplaintCommits issuer didx s d =>
+    simp only [step, processComplaintCommits]
+    split
+    · exact StepRel.refl _ _
+    · split
+      · exact StepRel.refl _ _
+      · split
+        · exact StepRel.refl _ _
+        · split
+          · exact StepRel.refl _ _
+          · rename_i v hl
+            have hrun : ∀ v', v' = (Vss.step cfg v (.verifyDeal d false)).1 → v' = Vss.run cfg v [.verifyDeal d false] :=
+              fun v' h => by rw [h]; rfl
+            split
+            · rename_i v' heq
+              have hv' := hrun v' (by rw [heq])
+              repeat' split
+              all_goals exact stepRel_setV cfg nd _ didx v [.verifyDeal d false] hl (by rw [hv'])
+            · rename_i v' o _ heq
+              exact stepRel_setV cfg nd _ didx v [.verifyDeal d false] hl (by rw [hrun v' (by rw [heq])])
+  | procReconstruct sid index didx hs si sv s =>
+    simp only [step, processReconstruct]
+    repeat' split
+    all_goals first | exact StepRel.refl _ _ | exact StepRel.of_verifiers_eq cfg nd _ rfl
 
 end Kyber.RabinDkg
